@@ -74,17 +74,20 @@ def candidates(path):
     return out
 
 
-def gen(outp, per_file, skip_file=None):
+def gen(outp, per_file, skip_file=None, only=None):
     allc = []
     used = set()
     if skip_file:
-        for r in json.load(open(skip_file)):
-            used.add((r["file"], r["line"]))
+        for sf in skip_file.split(","):
+            for r in json.load(open(sf)):
+                used.add((r["file"], r["line"]))
     for root, dirs, files in os.walk(SRC):
         if any(s in root for s in SKIP_DIRS):
             continue
         for f in sorted(files):
             if not f.endswith(".rs") or f in SKIP_FILES or f[:-3] in SKIP_DIRS:
+                continue
+            if only and not re.search(only, os.path.relpath(os.path.join(root, f), "/repo")):
                 continue
             c = [x for x in candidates(os.path.join(root, f)) if (x["file"], x["line"]) not in used]
             if not c:
@@ -215,6 +218,6 @@ def run(copy, mutants, k, n, results):
 
 if __name__ == "__main__":
     if sys.argv[1] == "gen":
-        gen(sys.argv[2], int(sys.argv[3]) if len(sys.argv) > 3 else 3, sys.argv[4] if len(sys.argv) > 4 else None)
+        gen(sys.argv[2], int(sys.argv[3]) if len(sys.argv) > 3 else 3, sys.argv[4] if len(sys.argv) > 4 else None, sys.argv[5] if len(sys.argv) > 5 else None)
     elif sys.argv[1] == "run":
         run(sys.argv[2], sys.argv[3], int(sys.argv[4]), int(sys.argv[5]), sys.argv[6])
